@@ -969,13 +969,15 @@ package weshnet
 //@ ghost keySeen(Ref) Bool
 //@ # parkedU(m): messages parked because their chain key was unknown
 //@ ghost parkedU(Ref) Int
+//@ guarded MessageStore.deviceCaches by muDeviceCaches rw for C08
 //@ pred gcacheOK(d) = d != nil && pqinv(d.queue) && unlocked(addr(d.queue.muMessages))
 
 //@ func (*MessageStore).addToDeviceCache
 //@   for C08
 //@   safety
 //@   requires msOK(m) && gcacheOK(device) && unlocked(addr(m.muDeviceCaches))
-//@   modifies lockstate(addr(m.muDeviceCaches)), hbag(device.queue), hsize(device.queue), device.queue.items, lockstate(addr(device.queue.muMessages)), keySeen(m), parkedU(m), padds
+//@   modifies lockstate(addr(m.muDeviceCaches)), lockgen(addr(m.muDeviceCaches)), hbag(device.queue), hsize(device.queue), device.queue.items, lockstate(addr(device.queue.muMessages)), keySeen(m), parkedU(m), padds
+//@   ensures [C08.park.single-section] lockgen(addr(m.muDeviceCaches)) == old(lockgen(addr(m.muDeviceCaches))) + 1
 //@   ghostset keySeen(m) := device.hasKnownChainKey
 //@   ghostset parkedU(m) := ite(device.hasKnownChainKey, old(parkedU(m)), old(parkedU(m)) + 1)
 //@   at (*PriorityQueue[T]).Add requires [C08.park.under-lock] locked(addr(caller_m.muDeviceCaches)) && !caller_device.hasKnownChainKey
@@ -999,8 +1001,12 @@ package weshnet
 //@   for C08
 //@   safety
 //@   requires msOK(m) && unlocked(addr(m.muDeviceCaches)) && message != nil && message.headers != nil && tracer != nil
-//@   modifies lockstate(addr(m.muDeviceCaches)), mapof(m.deviceCaches), keySeen(m), droppedU(m)
+//@   modifies lockstate(addr(m.muDeviceCaches)), lockgen(addr(m.muDeviceCaches)), mapof(m.deviceCaches), keySeen(m), droppedU(m)
 //@   ghostset keySeen(m) := device.hasKnownChainKey
+//@   # the flag of a new cache is what the secret store says in the very critical section that publishes the cache: a registration
+//@   # that runs before it finds no cache (and the flag is then read after the key is known), one that runs after it finds the cache
+//@   at (berty.tech/weshnet/v2/pkg/secretstore.SecretStore).IsChainKeyKnownForDevice requires [C08.lookup.key-read-under-lock] locked(addr(caller_m.muDeviceCaches))
+//@   ensures [C08.lookup.single-section] lockgen(addr(m.muDeviceCaches)) == old(lockgen(addr(m.muDeviceCaches))) + 1
 //@   ghostset droppedU(m) := ite(device == nil, old(droppedU(m)) + 1, old(droppedU(m)))
 //@   ensures [C08.lookup.flag] ret0 != nil ==> ret1 == ret0.hasKnownChainKey && keySeen(m) == ret1 && has(m.deviceCaches, $DK) && m.deviceCaches[$DK] == ret0 && gcacheOK(ret0)
 //@   ensures [C08.lookup.existing] old(has(m.deviceCaches, $DK)) ==> ret0 == old(m.deviceCaches[$DK]) && ret0.hasKnownChainKey == old(ret0.hasKnownChainKey) && hsize(ret0.queue) == old(hsize(ret0.queue))
@@ -1034,7 +1040,9 @@ package weshnet
 //@   for C08
 //@   safety
 //@   requires msOK(m) && unlocked(addr(m.muDeviceCaches)) && unlocked(addr(m.messagesQueue.mu))
-//@   modifies lockstate(addr(m.muDeviceCaches)), $RD.hasKnownChainKey
+//@   modifies lockstate(addr(m.muDeviceCaches)), lockgen(addr(m.muDeviceCaches)), $RD.hasKnownChainKey
+//@   at (berty.tech/weshnet/v2/pkg/secretstore.SecretStore).IsChainKeyKnownForDevice requires [C08.register.key-read-under-lock] locked(addr(caller_m.muDeviceCaches))
+//@   ensures [C08.register.single-section] lockgen(addr(m.muDeviceCaches)) == old(lockgen(addr(m.muDeviceCaches))) + 1
 //@   modifies hbag($RD.queue), hsize($RD.queue), $RD.queue.items, lockstate(addr($RD.queue.muMessages)), ptrace, pcalls, pcberrs
 //@   modifies lseq(m.messagesQueue.list), llen(m.messagesQueue.list), lockstate(addr(m.messagesQueue.mu)), sends(m.messagesQueue.signal)
 //@   ensures [C08.register.flag] old(has(m.deviceCaches, bytes(devicePK))) && len(devicePK) == 32 ==> $RD.hasKnownChainKey == ckknown(m.secretStore)[bytes(devicePK)]
